@@ -7,16 +7,17 @@ The scratch copy of /repo lives under /var/tmp and is removed afterwards; nothin
 import os, shutil, subprocess, sys, tempfile, json, time
 
 src = sys.argv[1]
+label = os.path.basename(os.path.normpath(src)).replace("benign-", "b")     # /tmp/benign-2 -> b2
 CHECKS = [f"C{n:02d}" for n in range(1, 21)]
 for k in sys.argv[2:]:
     d = os.path.join(src, "out", k)
-    dest = f"/verif/seeded/benign-{k}"
+    dest = f"/verif/seeded/benign-{k}" if label == "b1" else f"/verif/seeded/benign-{label}-{k}"
     os.makedirs(dest, exist_ok=True)
     shutil.copy(os.path.join(d, "patch.diff"), dest)
     if os.path.exists(os.path.join(d, "notes.txt")):
         shutil.copy(os.path.join(d, "notes.txt"), dest)
     scratch = tempfile.mkdtemp(prefix="snt-benign-", dir="/var/tmp")
-    res = {"patch": f"seeded/benign-{k}/patch.diff", "kind": "behaviour-preserving", "checks": {}}
+    res = {"patch": os.path.relpath(os.path.join(dest, "patch.diff"), "/verif"), "kind": "behaviour-preserving", "checks": {}}
     try:
         shutil.rmtree(scratch)
         shutil.copytree("/repo", scratch, ignore=shutil.ignore_patterns(".git", "__pycache__"))
